@@ -25,7 +25,8 @@ an ordering hint against a null tag value panics (finding F-2): `dynamic_candida
 
 GLOBAL: `prune_invariant` (full statement, below) — proved for the static candidates at every
 resolution point (`prune_static_invariant_partial`); the mandatory-edge look-ahead is stated and
-open.
+open (it is exercised on every generated case by the check: the model's `pruneAdapter` is run and
+its rows are compared with the rows of the real plain run).
 -/
 import TrustfallModel.Proofs.HintsSound
 import TrustfallModel.Proofs.HintsPrune
@@ -210,6 +211,42 @@ Proved below: the static candidates at every resolution point, without look-ahea
 (`keepVertex`), and the dynamic candidates (they depend on the context, which the abstract `Adapter`
 of `Model/Interp.lean` does not see; their local soundness is above, F-1 is their refutation). -/
 
+/-- **Pruning with the static hints never changes the rows.**  `pruneStaticAdapter` is the table
+adapter that, at `resolve_starting_vertices` and at every `resolve_neighbors` (plain, `@optional`,
+`@recurse`, `@fold` edges, at any fold depth), drops the vertices outside
+`statically_required_property(p)` of the call's hint object, for every filtered property `p`.  If
+the plain run yields rows, the pruned run yields the same rows in the same order.
+
+Guard `PruneHyp`: the IR has distinct Vids and Eids and every fold's `to_vid` is the root of its
+component (all enforced by `IndexedQuery::try_from`); the hint computation does not panic
+(`HintsTotal`: guaranteed by argument validation); a property declared non-nullable is not null on
+the vertices the adapter returns for the corresponding starting edge / edge / fold.  The proof
+combines local soundness with the homomorphism lemmas of `Proofs/InterpHom.lean`: a context whose
+new active vertex the hints reject does not survive the entry into that vertex
+(`enterVertex_dropped`), so dropping it before the stage changes nothing; for `@recurse(depth: 1)`
+the depth-0 context is untouched; for folds the rejected neighbours contribute no fold element. -/
+theorem prune_static_invariant_partial (ir : IRQuery) (D : Data) (args : List (Name × Value))
+    (rows : List Row) (hyp : PruneHyp ir args D)
+    (h : interpret (Env.ofData D args) ir = .ok rows) :
+    interpret { Env.ofData D args with adapter := pruneStaticAdapter ir args D } ir = .ok rows :=
+  interpret_pruned hyp rows h
+
+/-- The step the global proof rests on: a context whose active vertex is rejected by the static
+hints of the vertex it enters is removed by the engine itself. -/
+theorem rejected_vertex_never_survives (ir : IRQuery) (D : Data) (args : List (Name × Value))
+    (i : VInfo) (comp comp' : Component) (v : IRVertex) (c : Ctx) (x : VertexId) (o : List Ctx)
+    (hl : locate ir i.vid = some (comp', v))
+    (hp : passesStatic ir args D i x = .ok false)
+    (hnn : NonNullOk D v x) (hc : c.active = some x)
+    (h : enterVertex (Env.ofData D args) comp v [c] = .ok o) : o = [] :=
+  enterVertex_dropped ir D args i comp comp' v c x o hl hp hnn hc h
+
+/-- Non-vacuity: a query with a static filter at the root and one behind an edge, data on which the
+hints really drop a starting vertex, and all hypotheses of the theorem. -/
+example : PruneHyp nvIR nvArgs nvData ∧
+    keepB nvIR nvArgs nvData (VInfo.resolve 1 false) 1 = false :=
+  ⟨nv_hyp, by decide⟩
+
 end TF.C04
 
 #print axioms TF.C04.static_candidate_sound
@@ -226,3 +263,5 @@ end TF.C04
 #print axioms TF.C04.optional_fold_lookahead_non_binding
 #print axioms TF.C04.mandatory_edge_shape
 #print axioms TF.C04.lookahead_through_optional_reports_binding
+#print axioms TF.C04.prune_static_invariant_partial
+#print axioms TF.C04.rejected_vertex_never_survives
